@@ -65,6 +65,24 @@ def t_nested(s: float, k: float) -> float:
     return t_ma1(k, s) + 0.5 * t_const(k)
 
 
+def t_nestif(s: float, e: float, k: float) -> float:
+    """an if nested in an if-body, the two conditions on different quantities, with fall-through of the inner one"""
+    if s > 1.0:
+        if e > 1.5:
+            return k * s
+        return k * s * e
+    return 0.1 * k * s
+
+
+def t_guarded(s: float, e: float, k: float) -> float:
+    v = k * s
+    if s > 1.25:
+        v = v * e
+    if e > 1.0:
+        return v + 0.5
+    return v
+
+
 def t_local(s: float, k: float) -> float:
     a = s * s
     b = a + k
@@ -144,5 +162,5 @@ def u_exp(s: float, k: float) -> float:
     return k * math.exp(-s)
 
 
-RATES = {1: [t_const], 2: [t_ma1, t_cond, t_chain, t_elif, t_nested, t_local, t_time, t_cap], 3: [t_ma2, t_mm, t_inh, t_hill], 4: [t_rev]}
+RATES = {1: [t_const], 2: [t_ma1, t_cond, t_chain, t_elif, t_nested, t_local, t_time, t_cap], 3: [t_ma2, t_mm, t_inh, t_hill, t_nestif, t_guarded], 4: [t_rev]}
 UNTRANSLATABLE = [u_loop, u_andor, u_aug, u_exp]
